@@ -867,11 +867,12 @@ class Module(HasAccessibles):
         """
         try:
             min_, max_ = getattr(self, pname + '_limits')
-            if not min_ <= value <= max_:
-                raise RangeError(f'{pname} outside {pname}_limits')
-            return
         except AttributeError:
             pass
+        else:
+            if not min_ <= value <= max_:
+                raise RangeError(f'{pname} outside {pname}_limits')
+            # no return here: <pname>_min / <pname>_max may exist in addition
         min_ = getattr(self, pname + '_min', float('-inf'))
         max_ = getattr(self, pname + '_max', float('inf'))
         if min_ > max_:
